@@ -19,9 +19,9 @@ EXTENDS Naturals, Sequences, SequencesExt, FiniteSets, TLC
 CONSTANTS MaxLines, MaxDepth, Mode,     \* Mode: "valid" | "robust" | "defect"
           UnitKinds, ConstructKinds     \* alphabet restriction (model size)
 
-Units      == {"module", "program", "sub", "fun"} \cap UnitKinds
+Units      == {"module", "program", "sub", "fun"} \cap UnitKinds     \* "submodule" is opened by OpenSubmodule
 ProcKinds  == {"sub", "fun"}
-SpecScopes == {"module", "program", "sub", "fun", "ibody"}     \* have a specification part
+SpecScopes == {"module", "submodule", "program", "sub", "fun", "ibody"}     \* have a specification part
 Constructs == {"block", "do", "if", "select", "associate", "where"} \cap ConstructKinds
 IfaceKinds == {"iface_named", "iface_abstract", "iface_op"}
 
@@ -65,6 +65,15 @@ OpenUnit(k) ==
   /\ Bounded /\ Depth = 0
   /\ (k = "program" => ~\E c \in closed : c.kind = "program")    \* one main program
   /\ Push(k, Name(k), 0) /\ Emit([op |-> "open", kind |-> k, name |-> Name(k)])
+  /\ UNCHANGED closed /\ Same
+
+\* SUBMODULE (parent) name: the parent's entities are accessible by host association
+OpenSubmodule(par) ==
+  /\ Bounded /\ Depth = 0 /\ "submodule" \in UnitKinds
+  /\ par \in {c.name : c \in {x \in closed : x.kind = "module" /\ x.depth = 1}}
+  /\ stack' = Append(stack, [kind |-> "submodule", name |-> Name("submodule"), sline |-> Line, phase |-> 0,
+                              implicitNone |-> FALSE, nproc |-> 0, needProc |-> FALSE, nbody |-> 0, uses |-> {par}])
+  /\ Emit([op |-> "open", kind |-> "submodule", name |-> Name("submodule"), parent |-> par])
   /\ UNCHANGED closed /\ Same
 
 ClosedModules == {c.name : c \in {x \in closed : x.kind = "module" /\ x.depth = 1}}
@@ -170,7 +179,7 @@ OpenConstruct(k) ==
   /\ UNCHANGED closed /\ Same
 
 \* CONTAINS: module / program / a module procedure (host is a module); internal procedures cannot CONTAIN
-CanContain == \/ Top.kind \in {"module", "program"}
+CanContain == \/ Top.kind \in {"module", "submodule", "program"}
               \/ Top.kind \in ProcKinds /\ (Depth = 1 \/ (Depth = 2 /\ stack[1].kind = "module"))
 ContainsStmt ==
   /\ Bounded /\ Depth > 0 /\ Depth < MaxDepth /\ CanContain /\ Top.phase <= 3
@@ -180,15 +189,15 @@ ContainsStmt ==
 
 OpenProc(pk) ==
   /\ Bounded /\ Depth > 0 /\ Depth < MaxDepth /\ pk \in ProcKinds
-  /\ Top.kind \in {"module", "program", "sub", "fun"} /\ Top.phase = 4
+  /\ Top.kind \in {"module", "submodule", "program", "sub", "fun"} /\ Top.phase = 4
   /\ Push(pk, Name(pk), 0) /\ Emit([op |-> "open", kind |-> pk, name |-> Name(pk)])
   /\ UNCHANGED closed /\ Same
 
 \* END: bare / with keyword / with keyword and name (the renderer picks per `form`)
-EndForms(k) == IF k \in {"module", "program", "sub", "fun", "ibody"} THEN {"bare", "kind", "kindName"}
+EndForms(k) == IF k \in {"module", "submodule", "program", "sub", "fun", "ibody"} THEN {"bare", "kind", "kindName"}
                ELSE IF k \in {"type", "iface_named", "iface_op"} THEN {"kind", "kindName"} ELSE {"kind"}
 ValidEnd == /\ Top.kind = "module" => (Top.needProc => Top.nproc > 0)     \* bindings resolve
-            /\ Top.kind \in {"module", "program", "sub", "fun"} /\ Top.phase = 4 => Top.nproc > 0  \* CONTAINS is followed by a procedure
+            /\ Top.kind \in {"module", "submodule", "program", "sub", "fun"} /\ Top.phase = 4 => Top.nproc > 0  \* CONTAINS is followed by a procedure
             /\ Top.kind \in IfaceKinds \ {"iface_op"} => Top.nbody > 0
 End(form) ==
   /\ Bounded /\ Depth > 0 /\ form \in EndForms(Top.kind) /\ ValidEnd
@@ -294,6 +303,7 @@ OverlongLine ==
 
 ValidStmt ==
   \/ \E k \in Units : OpenUnit(k)
+  \/ \E m \in ClosedModules : OpenSubmodule(m)
   \/ \E m \in ClosedModules : UseStmt(m)
   \/ ImplicitNone \/ Decl \/ OpenType \/ TypeContains \/ Binding
   \/ \E t \in TypesVisible : DeclTyped(t)
@@ -346,6 +356,12 @@ ProcFocus == \/ \E k \in {"module", "program"} : OpenUnit(k)
              \/ \E ib \in IbodiesHere : DeclProcPtr(ib)
              \/ ContainsStmt \/ OpenProc("sub") \/ Decl
 SpecProcs == Init /\ [][ProcFocus]_vars
+\* focus generator: submodules using what their parent module declares
+SubmodFocus == \/ OpenUnit("module") \/ OpenType \/ End("kind") \/ End("kindName")
+               \/ \E m \in ClosedModules : OpenSubmodule(m)
+               \/ \E t \in TypesVisible : DeclTyped(t)
+               \/ ContainsStmt \/ OpenProc("sub") \/ Decl
+SpecSubmod == Init /\ [][SubmodFocus]_vars
 
 (* ---- properties --------------------------------------------------------- *)
 Complete == stack = <<>> /\ prog # <<>>
